@@ -8,6 +8,7 @@ pub mod native;
 pub mod sym;
 pub mod node;
 pub mod h_graph;
+pub mod h_panic;
 
 #[cfg(feature = "native")]
 pub mod registry;
